@@ -5,6 +5,8 @@ import (
 	"strings"
 	"time"
 
+	"detsim"
+
 	"github.com/boz/kcache/filter"
 	"github.com/boz/kcache/nsname"
 	metav1 "k8s.io/apimachinery/pkg/apis/meta/v1"
@@ -13,6 +15,10 @@ import (
 
 // idBuf is the one id buffer every NSName filter of the harness is built from.
 var idBuf = make([]nsname.NSName, 0, 16)
+
+// StaticEvals: the instants at which a "gate" filter was shown the object named
+// "static" (reset by the scenario that uses it).
+var StaticEvals []time.Duration
 
 // FilterSpec is a small term language for the filters used in scenarios.
 type FilterSpec struct {
@@ -24,7 +30,7 @@ type FilterSpec struct {
 
 func (fs FilterSpec) String() string {
 	switch fs.Op {
-	case "labels", "fn", "nsname", "labels2", "nsnames", "lsel", "sel", "rvparity", "slow", "flaky":
+	case "labels", "fn", "nsname", "labels2", "nsnames", "lsel", "sel", "rvparity", "slow", "flaky", "gate":
 		return fs.Op + "(" + fs.K + "," + fs.V + ")"
 	case "not", "and", "or":
 		s := fs.Op + "("
@@ -76,6 +82,30 @@ func (fs FilterSpec) Build() filter.Filter {
 		us, _ := strconv.Atoi(fs.V)
 		return filter.FN(func(o metav1.Object) bool {
 			time.Sleep(time.Duration(us) * time.Microsecond)
+			return true
+		})
+	case "gate":
+		// a user filter that holds its caller up for V microseconds whenever it is
+		// shown the object named "gate" (a lookup in some slow registry), and that
+		// notes when it is shown the object named "static" - which never changes, so
+		// that happens exactly when a list result is reconciled.  Accepts everything.
+		us, _ := strconv.Atoi(fs.V)
+		seen := ""
+		return filter.FN(func(o metav1.Object) bool {
+			switch o.GetName() {
+			case "gate":
+				// (once per version: the registry's answer is remembered)
+				if rv := o.GetResourceVersion(); rv != seen {
+					seen = rv
+					time.Sleep(time.Duration(us) * time.Microsecond)
+				}
+			case "static":
+				// (an unchanged cached object is shown to the filter twice within one
+				// reconcile, at the same instant)
+				if now := detsim.Elapsed(); len(StaticEvals) == 0 || StaticEvals[len(StaticEvals)-1] != now {
+					StaticEvals = append(StaticEvals, now)
+				}
+			}
 			return true
 		})
 	case "rvparity":
@@ -158,7 +188,7 @@ func FilterSpecs(specs []Spec, pred func(Spec) bool) []Spec {
 // noSlow: the same term with the cost of "slow" terms removed (they accept
 // everything): what the reference predicate evaluates.
 func (fs FilterSpec) noSlow() FilterSpec {
-	if fs.Op == "slow" {
+	if fs.Op == "slow" || fs.Op == "gate" {
 		return FilterSpec{}
 	}
 	if len(fs.Sub) == 0 {
